@@ -157,6 +157,7 @@ Definition op_ids (s : st) (o : op) : ledger :=
   | ONodeMap _ _ args => lit_bus args
   | ONodeMapn _ _ args => lit_bus args
   | ODefSend _ c => compl_ids c PNone
+  | OPlay nid _ _ _ _ tg _ => (KNode, nid) :: tg_ids tg
   | ODefLoad _ _ c => compl_ids c PNone
   | OBufNew addr _ _ bufnum c _ => optrange KBuf addr 1 ++ optrange KBuf bufnum 1 ++ new_compl_ids c bufnum addr
   | OBufConsecutive addr n _ _ bufnum c =>
@@ -615,6 +616,8 @@ Definition wf_op (n : nat) (s : st) (o : op) : bool :=
   | OReorder ns _ _ => forallb (node_exists s) ns && nonempty ns
   | OFreeDefaultGroup _ | OSendDefaultGroups | ODumpOsc _ => true
   | ODefSend _ c => compl_good c PNone
+  | OPlay _ def _ ob args _ _ =>
+    plain def && match play_elems s args with Some r => sargs_ok n (play_args ob r) | None => false end
   | ODefLoad cmd path c => is_load_cmd cmd && plain path && compl_good c PNone
   | OBufNew addr fr ch bufnum c _ => ion fr && ion ch && new_compl_good c bufnum addr
   | OBufConsecutive addr k fr ch bufnum c =>
